@@ -19,8 +19,10 @@ only the spreadsheet's (c + lamP) - lamP subtraction explains it), otherwise "<f
 library documents a series precisely so that cancellation is NOT the answer); negative results and
 exceptions carry their own signatures.  Edge relations over exposure are evaluated only between
 points that agree with the reference (nothing is explored beyond a violating state)."""
+import copy
 import math
 import decimal
+import itertools
 from decimal import Decimal
 from ..common import Acc, load_pt, chunks, rotate, MachineryError
 from ..ref import activation as RA
@@ -57,7 +59,33 @@ COMPOUNDS = (
     ("Li[6]0.3Li0.7F", (("Li", 6, 0.3), ("Li", None, 0.7), ("F", None, 1))),
     ("HDO", (("H", None, 1), ("H", 2, 1), ("O", None, 1))),
     ("Co[59]Co", (("Co", 59, 1), ("Co", None, 1))),
+    # ions (4th entry = charge).  The charge does not change the nucleus: an ion of a natural element
+    # contributes the abundance-weighted sum of the element's isotopes, an ion of an isotope that isotope;
+    # the same element in two charge states / as ion and neutral / as isotope ion and natural ion must add
+    ("Na{+}Cl{-}", (("Na", None, 1, 1), ("Cl", None, 1, -1))),
+    ("Co[59]{2+}O{2-}", (("Co", 59, 1, 2), ("O", None, 1, -2))),
+    ("Fe{2+}Fe{3+}2O{2-}4", (("Fe", None, 1, 2), ("Fe", None, 2, 3), ("O", None, 4, -2))),
+    ("Cu{+}Cu", (("Cu", None, 1, 1), ("Cu", None, 1))),
+    ("Co[59]{2+}Co{3+}", (("Co", 59, 1, 2), ("Co", None, 1, 3))),
+    ("Cu[63]{+}Cu[63]{2+}Cu[65]", (("Cu", 63, 1, 1), ("Cu", 63, 1, 2), ("Cu", 65, 1))),
+    ("D{+}2O{2-}", (("H", 2, 2, 1), ("O", None, 1, -2))),
 )
+# histories of ONE environment object (reused configuration objects): settings = fluence x Cd ratio x fast ratio
+ENV_ATTRS = ("fluence", "Cd_ratio", "fast_ratio")
+HIST = dict(
+    quick=dict(fluence=(1e5, 1e12), depth=2),
+    thorough=dict(fluence=(1e5, 1e12), depth=3),
+)
+HIST_EXPOSURE = 1.0
+HIST_MASS = MASS[0]
+HIST_RESTS = (0.0, 24.0)
+TRANSFERS = ("same", "copy", "deepcopy")
+# histories of Sample / environment objects at the level of Sample.calculate_activation
+SAMPLE_HIST = dict(
+    quick=dict(fluence=1e12, cd=(0.0, 70.0), fast=(0.0, 50.0)),
+    thorough=dict(fluence=1e12, cd=CD, fast=FAST),
+)
+SAME = 1e-12        # two routes through the same arithmetic: equal up to summation order
 
 META = dict(
     level="model_checking", engine="E1",
@@ -473,6 +501,38 @@ def abundance_weights(L, Z, which):
     return out
 
 
+def norm_spec(spec):
+    """[(symbol, A or None, count, charge)]"""
+    return [(s[0], s[1], s[2], (s[3] if len(s) > 3 else 0)) for s in spec]
+
+
+def charge_text(q):
+    return "" if not q else "{%s%s}" % ("" if abs(q) == 1 else abs(q), "+" if q > 0 else "-")
+
+
+def spec_formula(spec, charges=True):
+    """Formula string of a spec (with or without the charges)."""
+    return "".join("%s%s%s%s" % (sym, "" if A is None else "[%d]" % A, charge_text(q) if charges else "",
+                                 "" if n == 1 else "%.12g" % n) for sym, A, n, q in norm_spec(spec))
+
+
+def sample_exception_signature(act, spec, env, exposure, rests, kw, exc):
+    """Cause of an exception of Sample.calculate_activation by input class: if the sample contains ions and
+    the same material with the charges removed computes, the ions are the cause."""
+    ions = [(A is None) for _, A, _, q in norm_spec(spec) if q]
+    if ions:
+        try:
+            s = act.Sample(spec_formula(spec, charges=False), SAMPLE_MASS)
+            s.calculate_activation(env, exposure=exposure, rest_times=tuple(rests), **kw)
+            neutral_ok = True
+        except Exception:   # noqa
+            neutral_ok = False
+        if neutral_ok:
+            return ("sample-with-ion-of-natural-element-raises" if any(ions)
+                    else "sample-with-ion-of-isotope-raises")
+    return "sample-exception-%s" % type(exc).__name__
+
+
 def sample_check(acc, L, name, spec, fluence, cd, fr, exposure, which, mass=SAMPLE_MASS, rests=REST):
     """Sample(name).calculate_activation == isotope route with mass x fraction x abundance/100."""
     pt, act = L.pt, L.act
@@ -493,9 +553,11 @@ def sample_check(acc, L, name, spec, fluence, cd, fr, exposure, which, mass=SAMP
     # expected contributions through the isotope route (second route of the library)
     total = 0.0
     parts = []
-    for sym, A, n in spec:
+    for sym, A, n, q in norm_spec(spec):
         el = getattr(pt.elements, sym)
         atom = el if A is None else el[A]
+        if q:
+            atom = atom.ion[q]      # the ion's own mass (electrons removed / added) enters the mass fraction
         parts.append((el, A, n * atom.mass))
         total += n * atom.mass
     expected = {}
@@ -528,8 +590,9 @@ def sample_check(acc, L, name, spec, fluence, cd, fr, exposure, which, mass=SAMP
         s.calculate_activation(env, exposure=exposure, rest_times=tuple(rests), **kw)
         acc.evaluations += 1
     except Exception as e:  # noqa
-        acc.violation("sample-exception-%s" % type(e).__name__, case, expected="activities", observed=exc_text(e),
-                      standalone=snippet)
+        acc.violation(sample_exception_signature(act, spec, env, exposure, rests, kw, e), case,
+                      expected="activities", observed=exc_text(e), standalone=snippet)
+        acc.outcome("sample:raises")
         return
     got = dict(s.activity)
     acc.transitions += 1
@@ -674,7 +737,7 @@ def _replay80(ctx, case):
             table_check(acc, L)
         return
     if kind == "sample":
-        spec = [(s[0], s[1], s[2]) for s in case["spec"]]
+        spec = [tuple(s) for s in case["spec"]]
         sample_check(acc, L, case["formula"], spec, case["fluence"], case["Cd_ratio"], case["fast_ratio"],
                      case["exposure"], case["abundance"], mass=case.get("mass", SAMPLE_MASS))
         return
